@@ -63,11 +63,11 @@ def _int_cones_4d():
 
 def all_cones(ctx):
     specs = []
-    step = 1 if ctx.thorough else 3
+    step = 1  # the full 1-degree grid in both tiers (cheap)
     frac = (ctx.seed % 10) / 10.0
     specs += [("theta", t + frac) for t in range(1, 179, step)]
     specs += [("theta", t) for t in (45, 89.5, 90, 90.5, 135)]
-    hs = range(10, 85, 5) if ctx.thorough else range(10, 85, 10)
+    hs = range(10, 85, 5)
     specs += [("ice", h, k) for h in hs for k in range(3, 13)]
     specs += [("c3d", k) for k in ("acute", "right", "obtuse")]
     specs += [("comp", m) for m in (2, 3, 4)]
